@@ -225,7 +225,17 @@ def m_np_prod(interp, a, *args, **kw):
     if args or kw:
         raise Unsupported("np.prod with extra arguments")
     if getattr(a, "_pyvc_symbolic", False):
-        return a.prod()
+        if hasattr(a, "prod"):
+            return a.prod()
+        from .arrays import SArr
+        if isinstance(a, SArr) and a.ndim == 1 and isinstance(a.shape[0], int) and a.dtype.kind == "f":
+            # product of a float vector of concrete length (real regime)
+            ctx().trust("np.prod(float vector): the product of its elements (real regime)")
+            p = 1.0
+            for k in range(a.shape[0]):
+                p = p * a.elem(k)
+            return p
+        raise Unsupported("np.prod of this symbolic array (no model)")
     vals = interp.iterate(a)
     if not contains_sym(vals):
         return np.prod(vals)
